@@ -37,3 +37,47 @@ Section GenTie.
     gen_indices_xy OP data l0 p0 dl dp lmax pmax = idx_kern OP l0 p0 dl dp.
   Proof. reflexivity. Qed.
 End GenTie.
+
+(* ---------------- the element-wise cores of gradient/__init__.py, regenerated from the source ---------------- *)
+From Coq Require Import Reals Lra.
+From Flocq Require Import Zaux Raux Generic_fmt Round_NE.
+From PR Require Import Base.RNum.
+
+Section GenBlocks.
+  Open Scope R_scope.
+  Lemma fmax_IZR z m : fmax RO (IZR z) (IZR m) = IZR (Z.max z m).
+  Proof.
+    unfold fmax. cbn [ltb RO]. destruct (Rltb (IZR z) (IZR m)) eqn:E.
+    - apply Rltb_true in E. apply lt_IZR in E. f_equal. lia.
+    - apply Rltb_false in E. apply le_IZR in E. f_equal. lia.
+  Qed.
+  Lemma fmin_IZR z m : fmin RO (IZR z) (IZR m) = IZR (Z.min z m).
+  Proof.
+    unfold fmin. cbn [ltb RO]. destruct (Rltb (IZR m) (IZR z)) eqn:E.
+    - apply Rltb_true in E. apply lt_IZR in E. f_equal. lia.
+    - apply Rltb_false in E. apply le_IZR in E. f_equal. lia.
+  Qed.
+  Lemma trunc_clip_rint x m : truncZ RO (clipF RO (rintT RO x) (ofZ RO 0) (ofZ RO m)) = clipZ (rintZ RO x) 0 m.
+  Proof. unfold clipF, rintT, clipZ. cbn [ofZ rintZ truncZ RO]. rewrite fmax_IZR, fmin_IZR. apply Ztrunc_IZR. Qed.
+
+  (* _get_mask_and_adjusted_indices on a valued pixel (the reals have no NaN: "no value" is [None] in the model) *)
+  Theorem gen_mask_adjust_RO x y ys xs :
+    gen_mask_adjust RO (x, y) (ys, xs) = mask_adjust RO ys xs (Some (x, y)).
+  Proof. reflexivity. Qed.
+
+  Theorem gen_block_nn_RO Dc ny nx x y fill ys xs :
+    gen_block_nn RO (mk_arr2 (ny, nx) Dc) (x, y) fill (ys, xs)
+    = block_nn RO Dc ny nx (x - IZR (sstart xs)) (y - IZR (sstart ys)).
+  Proof.
+    unfold gen_block_nn, gen_mask_adjust, block_nn, whereT, nan_to_num. cbn [isnan sub ofZ RO arr_shape arr_get].
+    rewrite !trunc_clip_rint. reflexivity.
+  Qed.
+
+  Theorem gen_block_bil_RO Dc ny nx x y fill ys xs :
+    gen_block_bil RO (mk_arr2 (ny, nx) Dc) (x, y) fill (ys, xs)
+    = block_bil RO Dc ny nx (x - IZR (sstart xs)) (y - IZR (sstart ys)).
+  Proof.
+    unfold gen_block_bil, gen_mask_adjust, block_bil, block_bil_axis, clipT, modfT, whereT, nan_to_num, bil_sum, zeroT, oneT.
+    cbn [isnan sub add mul ofZ truncZ RO arr_shape arr_get]. rewrite !Ztrunc_IZR. reflexivity.
+  Qed.
+End GenBlocks.
